@@ -48,3 +48,8 @@ chk("C06","exploration",
  "Update/Delete with every sequence of 1..2 (3) object hosts that contains a host that must be refused, Accept against 7 stored-Follow situations x embedded/IRI x 6 actor sets, Undo with 8 actor-set relations, and every sequence of 1..3 activity actors (IRI/embedded) x blocked subsets run on the real handlers; refusal must leave the state unchanged beyond the inbox entry, Blocked must receive exactly the actors' own ids before any side effect.",
  "Trusted: reference expectations per family; hosts differing only in case or explicit default port are not asserted.",
  "bounded-exhaustive input enumeration against per-family authority oracles","DESIGN.md 3 C06")
+
+chk("C16","exploration",
+ "Client Update (16 stored member subsets x 81 member assignments incl. nulls x 1..2 objects), Delete (1..2(3) objects, 4 timestamp variants, IRI/embedded), Add/Remove (all object and distinct-target sequences up to length 2(3), owned targets holding duplicates), Like, Block and the missing object/target family run on the real outbox handlers for Social-only and both protocols; a JSON reference model (merge + null deletion, Tombstone fields, owned-collection edits, liked front insertion, Block undelivered, 400 + unchanged state) is diffed against the real final state.",
+ "Trusted: the reference model; nulls are looked for inside the activity's object.",
+ "bounded-exhaustive input enumeration against a reference model (differential state comparison)","DESIGN.md 3 C16")
